@@ -52,8 +52,10 @@ def _members(typ, v):
   return []
 
 
-def check_step(pre, post, step):
-  """-> list of (clause, detail)."""
+def check_step(pre, post, step, replaced_table=None):
+  """-> list of (clause, detail).  `replaced_table`: the table whose whole contents the step
+  replaced (ReplaceTableData): its new rows are new records whose cells were written explicitly by
+  the action, so they are not compared with the old rows of the same ids."""
   out = []
   removed = {}
   for t, old in pre["ids"].items():
@@ -61,6 +63,7 @@ def check_step(pre, post, step):
     if gone: removed[t] = gone
   if not removed: return out
   for (t, cid), (typ, col) in post["cells"].items():
+    if t == replaced_table: continue
     target = typ.split(":", 1)[1]
     gone = removed.get(target)
     if not gone: continue
@@ -72,7 +75,7 @@ def check_step(pre, post, step):
           "removed_ids_of_target": sorted(gone)}))
         break
   for (t, cid), (typ, col) in post["cells"].items():
-    if not typ.startswith("RefList:"): continue
+    if not typ.startswith("RefList:") or t == replaced_table: continue
     old = pre["cells"].get((t, cid))
     if old is None or old[0] != typ: continue
     gone = removed.get(typ.split(":", 1)[1])
@@ -122,7 +125,9 @@ def _wrapped_one(self, user_action):
     ST["steps_removing"] += 1
     ST["distinct"].add(hash((repr(user_action), repr(sorted(
       (t, tuple(sorted(i))) for t, i in pre["ids"].items() if i)))))
-  ST["viol"].extend(check_step(pre, post, type(user_action).__name__))
+  name = type(user_action).__name__
+  replaced = user_action[0] if name == "ReplaceTableData" and len(user_action) > 0 else None
+  ST["viol"].extend(check_step(pre, post, name, replaced))
   return r
 
 _engine.Engine._apply_one_user_action = _wrapped_one
@@ -317,7 +322,7 @@ def main():
   tot = {"steps": 0, "steps_removing": 0, "distinct": 0}
   try:
     explore.explore(rep, "checks.C10", "C10Monitor", n_quick=800, n_thorough=10000,
-                    budget_quick_s=50, budget_thorough_s=800)
+                    budget_quick_s=45, budget_thorough_s=800)
     for f in os.listdir(d):
       with open(os.path.join(d, f)) as fh:
         for k, v in json.load(fh).items(): tot[k] += v
